@@ -9,13 +9,12 @@
 (*    target state and the projection of the target the Go driver compares *)
 (*    with the real middleware.  checks/X_limits.py turns the graph into a *)
 (*    set of paths that covers every edge.                                 *)
-(*  - hist / EmitBehaviour: random behaviours of larger instances          *)
-(*    (`-simulate`), printed as <<"BEH", json>> when they reach SimDepth.  *)
+(*  - hist: random behaviours of larger instances (`-simulate file=...`):  *)
+(*    the last state of every trace file carries the whole behaviour.      *)
 (*  - ExtractCases: the case enumeration for extractIP.                    *)
 (***************************************************************************)
 EXTENDS RpcLimits, Json
 
-CONSTANTS SimDepth
 VARIABLE hist
 
 mcvars == <<vars, hist>>
@@ -42,12 +41,13 @@ MCSimNext == SysNext /\ hist' = Append(hist, [l |-> lab', o |-> out', p |-> Proj
 EdgeOut == PrintT(<<"EDGE", ToJson([f |-> Sid, l |-> lab', o |-> out', t |-> Sid', p |-> Proj'])>>)
 InitOut == (lab.op = "init") => PrintT(<<"INIT", ToJson([f |-> Sid, p |-> Proj])>>)
 
-EmitBehaviour == TLCGet("level") < SimDepth \/ PrintT(<<"BEH", ToJson(hist)>>)
-
-MCFairSpec == /\ MCInit /\ [][MCNext]_mcvars
-              /\ \A r \in Reqs : WF_mcvars(CacheGet(r) \/ CacheAdd(r) \/ Allow(r) \/ Acquire(r))
-              /\ \A q \in Reqs : WF_mcvars(\E how \in {"returned", "panicked", "cancelled"} : Finish(q, how))
-              /\ WF_mcvars(Tick)
+(* liveness configurations: the fairness of RpcLimits!FairSpec, with the history variable pinned *)
+H(A) == A /\ hist' = <<>>
+MCFairSpecNoWatch ==
+              /\ MCInit /\ [][MCNextNoWatch]_mcvars
+              /\ \A r \in Reqs : WF_mcvars(H(CacheGet(r) \/ CacheAdd(r) \/ Allow(r) \/ Acquire(r)))
+              /\ \A q \in Reqs : WF_mcvars(H(\E how \in {"returned", "panicked", "cancelled"} : Finish(q, how)))
+              /\ WF_mcvars(H(Tick))
 
 (* extractIP cases (printed once, from the initial state) *)
 ExtractOut == (lab.op = "init") =>
